@@ -173,8 +173,8 @@ class _Unparsed(Exception):
     pass
 
 
-def compact_value(text):
-    """The executor prints functions as chains `(k1 :> v1) @@ (k2 :> v2) @@ ...`; SANY needs several times longer for
+def parse_value(text):
+    """Syntax tree of a value printed by the executor, or None when it contains anything unknown. Background: The executor prints functions as chains `(k1 :> v1) @@ (k2 :> v2) @@ ...`; SANY needs several times longer for
     those than for the same value written as a record / tuple / explicit function (1 500 shopcart states: 71 s of a
     94 s TLC run were parsing). This rewrites a printed value into the cheaper syntax -- records for string keys,
     tuples for keys 1..n, ZFn(<<keys>>, <<values>>) otherwise -- and returns the text unchanged when it meets anything
@@ -185,7 +185,7 @@ def compact_value(text):
         if not m:
             if text[pos:].strip() == "":
                 break
-            return text
+            return None
         toks.append(m.group(1)); pos = m.end()
     i = [0]
 
@@ -248,30 +248,42 @@ def compact_value(text):
             break
         return single if single is not None else ("fn", pairs)
 
-    def show(e):
-        k = e[0]
-        if k == "atom":
-            return e[1]
-        if k == "tup":
-            return "<<" + ", ".join(show(x) for x in e[1]) + ">>"
-        if k == "set":
-            return "{" + ", ".join(show(x) for x in e[1]) + "}"
-        if k == "rec":
-            return "[" + ", ".join("%s |-> %s" % (f, show(v)) for f, v in e[1]) + "]"
-        keys = [x for x, _ in e[1]]
-        if keys and all(x[0] == "atom" and x[1].startswith('"') and _IDENT.match(x[1][1:-1]) for x in keys) and len({x[1] for x in keys}) == len(keys):
-            return "[" + ", ".join("%s |-> %s" % (x[1][1:-1], show(v)) for x, v in e[1]) + "]"
-        if keys and all(x[0] == "atom" and x[1].isdigit() for x in keys) and sorted(int(x[1]) for x in keys) == list(range(1, len(keys) + 1)):
-            return "<<" + ", ".join(show(v) for _, v in sorted(e[1], key=lambda kv: int(kv[0][1]))) + ">>"
-        return "ZFn(<<" + ", ".join(show(x) for x in keys) + ">>, <<" + ", ".join(show(v) for _, v in e[1]) + ">>)"
-
     try:
         e = expr()
-        if i[0] != len(toks):
-            return text
-        return show(e)
+        return e if i[0] == len(toks) else None
     except (_Unparsed, IndexError):
-        return text
+        return None
+
+
+def _tup(xs):
+    body = ", ".join(xs)
+    return "<<" + (" " if body.startswith("<") else "") + body + (" " if body.endswith(">") else "") + ">>"
+
+def show_value(e):
+    """TLA+ text of a tree of parse_value: records for string keys, tuples for keys 1..n, ZFn(<<keys>>, <<values>>) otherwise."""
+    k = e[0]
+    if k == "atom":
+        return e[1]
+    if k == "tup":
+        return _tup([show_value(x) for x in e[1]])
+    if k == "set":
+        return "{" + ", ".join(show_value(x) for x in e[1]) + "}"
+    if k == "rec":
+        return "[" + ", ".join("%s |-> %s" % (f, show_value(v)) for f, v in e[1]) + "]"
+    keys = [x for x, _ in e[1]]
+    if keys and all(x[0] == "atom" and x[1].startswith('"') and _IDENT.match(x[1][1:-1]) for x in keys) and len({x[1] for x in keys}) == len(keys):
+        return "[" + ", ".join("%s |-> %s" % (x[1][1:-1], show_value(v)) for x, v in e[1]) + "]"
+    if keys and all(x[0] == "atom" and x[1].isdigit() for x in keys) and sorted(int(x[1]) for x in keys) == list(range(1, len(keys) + 1)):
+        return _tup([show_value(v) for _, v in sorted(e[1], key=lambda kv: int(kv[0][1]))])
+    return "ZFn(" + _tup([show_value(x) for x in keys]) + ", " + _tup([show_value(v) for _, v in e[1]]) + ")"
+
+
+
+def compact_value(text):
+    """The value in the cheaper syntax; the text unchanged when the parser meets anything it does not know.
+    (The first state of every trace module is embedded in both forms and compared by TLC.)"""
+    e = parse_value(text)
+    return text if e is None else show_value(e)
 
 
 def delta_trace_module(module, variables, runs, reset_extra):
@@ -291,19 +303,29 @@ def delta_trace_module(module, variables, runs, reset_extra):
                 # the very first state also as the executor printed it: TLC compares the two forms (TraceInit)
                 recs.append('[k |-> "i", st |-> %s%s]' % (full, (", orig |-> " + st) if not recs else ""))
             else:
-                ch = [v for v in variables if f[v] != prev[v]]
-                recs.append('[k |-> "s", st |-> %s]' % ("[" + ", ".join("%s |-> %s" % (v, compact_value(f[v])) for v in ch) + "]" if ch else "<<>>"))
+                fields = []
+                for v in variables:
+                    if f[v] == prev[v]:
+                        continue
+                    a, b = parse_value(prev[v]), parse_value(f[v])
+                    if a and b and a[0] == "fn" and b[0] == "fn" and len(b[1]) > 1 and [show_value(k_) for k_, _ in a[1]] == [show_value(k_) for k_, _ in b[1]]:
+                        # a function with the same domain: only the entries that changed (ZMatchDeltaP: zp_v @@ v)
+                        chg = [(k_, y) for (k_, x), (_, y) in zip(a[1], b[1]) if show_value(x) != show_value(y)]
+                        fields.append("zp_%s |-> ZFn(%s, %s)" % (v, _tup([show_value(k_) for k_, _ in chg]), _tup([show_value(y) for _, y in chg])))
+                    else:
+                        fields.append("%s |-> %s" % (v, f[v] if b is None else show_value(b)))
+                recs.append('[k |-> "s", st |-> %s]' % ("[" + ", ".join(fields) + "]" if fields else "<<>>"))
             prev = f
     match = " /\\ ".join("%s = zst.%s" % (v, v) for v in variables)
     matchfull = " /\\ ".join("%s' = zst.%s" % (v, v) for v in variables)
-    matchd = " /\\ ".join("%s' = (IF \"%s\" \\in DOMAIN zst THEN zst.%s ELSE %s)" % (v, v, v, v) for v in variables)
+    matchd = " /\\ ".join("%s' = (IF \"%s\" \\in DOMAIN zst THEN zst.%s ELSE IF \"zp_%s\" \\in DOMAIN zst THEN (zst.zp_%s @@ %s) ELSE %s)" % (v, v, v, v, v, v, v) for v in variables)
     return """---- MODULE %(m)sTrace ----
 EXTENDS %(m)s
 VARIABLE l
+ZFn(zks, zvs) == [zx \\in {zks[zi] : zi \\in 1..Len(zks)} |-> zvs[CHOOSE zi \\in 1..Len(zks) : zks[zi] = zx]]
 ZTrace == <<
 %(data)s
 >>
-ZFn(zks, zvs) == [zx \\in {zks[zi] : zi \\in 1..Len(zks)} |-> zvs[CHOOSE zi \\in 1..Len(zks) : zks[zi] = zx]]
 ZMatch(zst) == %(match)s
 ZMatchFullP(zst) == %(matchfull)s
 ZMatchDeltaP(zst) == %(matchd)s
